@@ -32,7 +32,7 @@ CONSTANTS ENum, EShift,          \* exponents of the bounds of the parameters {e
           Conts, OConts,         \* containers of the bounds objects of the focus / of the companion
           Spells,                \* positions (1 lower case, 2 capitalised, 3 upper case, 4 mixed) of the mode spellings used
           FocusOwners, CompOwners,
-          MaxCompiles, Depth, Export,
+          MaxCompiles, Depth, Export, ModeWeight, AgainWeight,
           Defaults, ModeText, Args
 VARIABLES owner, cown, decl, st, hist, trail
 vars == <<owner, cown, decl, st, hist, trail>>
@@ -123,7 +123,9 @@ Init == /\ owner \in FocusOwners /\ cown \in CompOwners /\ decl \in Modes
                                           [op |-> "other", text |-> "", via |-> "call", b |-> ob, ct |-> oct, call |-> NoCall, n |-> 0] >>
                         ELSE <<>>
               /\ trail = IF Export THEN <<InitSt(b, ct, ob, oct), InitSt(b, ct, ob, oct)>> ELSE <<>>
-SetMode == \E text \in ModeTexts, via \in {"call", "file"}, n \in 0..MaxCompiles :
+\* (rep is not used: the simulator draws uniformly from the instances of the actions, and the edits with few instances -- a
+\* change of the mode alone, compiling again -- are the ones this module is about)
+SetMode == \E text \in ModeTexts, via \in {"call", "file"}, n \in 0..MaxCompiles, rep \in 1..ModeWeight :
               /\ text # st.mtext
               /\ Do(Edit("mode", text, via, <<0, 0>>, "", NoCall), [Stale(st) EXCEPT !.mtext = text], n)
 SetBoundary == \E b \in Pairs(ES), ct \in Conts, via \in {"call", "file"}, n \in 0..MaxCompiles :
@@ -135,7 +137,7 @@ SetOther == \E b \in Pairs(ES), ct \in OConts, n \in 0..MaxCompiles :
 SetPrior == \E c \in UserCalls, via \in {"object", "text", "file"}, n \in 0..MaxCompiles :
               /\ Build(c) # st.user
               /\ Do(Edit("prior", "", via, <<0, 0>>, "", c), [Stale(st) EXCEPT !.user = Build(c)], n)
-Again == \E n \in 1..MaxCompiles : /\ n > 0
+Again == \E n \in 1..MaxCompiles, rep \in 1..AgainWeight : /\ n > 0
                                     /\ Do(Edit("again", "", "call", <<0, 0>>, "", NoCall), st, n)
 Next == SetMode \/ SetBoundary \/ SetOther \/ SetPrior \/ Again
 Spec == Init /\ [][Next]_vars
